@@ -14,7 +14,7 @@ esac || { echo "APPLY-FAILED"; rm -rf "$D"; exit 3; }
 (cd "$D" && go build -tags unit ./... ) || { echo "BUILD-FAILED"; rm -rf "$D"; exit 3; }
 rc=0
 for prop in "$@"; do
-  out=$(/verif/bin/kitcheck -prop "$prop" -repo "$D" -verif /tmp/kcmut-verif 2>&1); r=$?
+  out=$(${KC_BIN:-/verif/bin/kitcheck} -prop "$prop" -repo "$D" -verif ${KC_VERIF:-/tmp/kcmut-verif} 2>&1); r=$?
   echo "[$prop] exit=$r"; echo "$out" | grep -v '^NOTE' | head -${MUTLINES:-6}
   [ $r -ne 0 ] && rc=$r
 done
